@@ -247,6 +247,7 @@ def run_shard_task(task):
         res = {"verdict": world.verdict[0] if world.verdict else None,
                "errors": {str(k): v[:500] for k, v in world.errors.items()},
                "logs": [dict(zip(("created", "gathers"), split_log(world.logs[r]))) for r in range(W)],
+               "meshes": [[e["mesh"] for e in world.logs[r] if e["ev"] == "mesh" and e["miss"]] for r in range(W)],
                "info": {str(r): world.partial[r]["info"] for r in world.partial if "info" in world.partial[r]}}
         mism = []
         for r in range(W):
@@ -330,6 +331,7 @@ def run_dtensor_task(task):
         res = {"verdict": world.verdict[0] if world.verdict else None,
                "errors": {str(k): v[:500] for k, v in world.errors.items()},
                "logs": [dict(zip(("created", "gathers"), split_log(world.logs[r]))) for r in range(W)],
+               "meshes": [[e["mesh"] for e in world.logs[r] if e["ev"] == "mesh" and e["miss"]] for r in range(W)],
                "info": {str(r): world.partial[r]["info"] for r in world.partial if "info" in world.partial[r]}}
         mism = []
         for r in range(W):
